@@ -263,7 +263,8 @@ def call_env(eng, spec, recv, name, args, kwargs, node, fr):
     for exc in spec.raises:
         if eng.branch(eng.fresh_bool("env_raises_" + exc.split(".")[-1].split(":")[0]).t):
             eng.emit("env_raise", tag=name, exc=exc, node=node)
-            raise RaiseSig(VExc(exc))
+            # an OSError from the environment carries an arbitrary errno as args[0]
+            raise RaiseSig(VExc(exc, [eng.fresh_int("errno")] if exc == "OSError" else []))
     result = eng.fresh_of_type(spec.returns, "env_" + name.split(".")[-1]) if spec.returns is not None else NONE
     env = {"result": result, "self": recv}
     for p, a in zip(spec.params, args):
